@@ -91,16 +91,16 @@ theorem unknown_never_allowed (n : Nat) (tokens : List String) (cwd : String) (r
 /-! ### input Dippy cannot parse or does not recognise -/
 
 theorem parse_error_asks (fuel : Nat) (s cwd msg : String) (rem : Bool)
-    (hs : (Py.strip s).isEmpty = false) (hp : w.parse (Py.strip s) = .error msg) :
+    (hs : (stripCmd s).isEmpty = false) (hp : w.parse (stripCmd s) = .error msg) :
     analyzeStr w h (fuel + 1) s cwd rem = ⟨.ask, "parse error: " ++ msg⟩ := by
   simp [analyzeStr, hs, hp]
 
-theorem empty_asks (fuel : Nat) (s cwd : String) (rem : Bool) (hs : (Py.strip s).isEmpty = true) :
+theorem empty_asks (fuel : Nat) (s cwd : String) (rem : Bool) (hs : (stripCmd s).isEmpty = true) :
     analyzeStr w h (fuel + 1) s cwd rem = ⟨.ask, "empty command"⟩ := by
   simp [analyzeStr, hs]
 
 theorem no_nodes_asks (fuel : Nat) (s cwd : String) (rem : Bool)
-    (hs : (Py.strip s).isEmpty = false) (hp : w.parse (Py.strip s) = .ok []) :
+    (hs : (stripCmd s).isEmpty = false) (hp : w.parse (stripCmd s) = .ok []) :
     analyzeStr w h (fuel + 1) s cwd rem = ⟨.ask, "empty command"⟩ := by
   simp [analyzeStr, hs, hp]
 
@@ -174,5 +174,11 @@ theorem help_tuples :
 
 /-- T0 obligation: the translator found every table where it expected it -/
 theorem no_missing_tables : Generated.missingTables = [] := by decide
+
+/-- T0 + model: the command text loses only blanks, tabs and newlines at its ends – a leading form feed, NBSP or NEL is
+    part of the program name for bash (`$'\\fls'`: command not found) and stays in the text that is parsed -/
+theorem strip_is_bash_blank : Generated.Quoting.analyzeStripChars = " \t\n" := by decide
+
+example : stripCmd "\x0cls" = "\x0cls" ∧ stripCmd " ls \n" = "ls" ∧ stripCmd "\t\u00a0ls" = "\u00a0ls" := by decide +kernel
 
 end Dippy.C05
